@@ -18,6 +18,8 @@ import (
 //   P  (same fields)            -> DetectParallelInstance
 //        each time = two tokens  <sec> <nsec> : int64 seconds since year 1 (time.Time's internal
 //        wall representation) and nanoseconds; built with time.Unix (no monotonic reading).
+//   SX / PX  like SM / PM but each time is m<off> (monotonic), w<off> (the same instant, wall-only) or
+//        z (time.Time{}); Now is always m<off>: the production mixture.
 //   SM / PM  (same fields) but each time = one token: an int64 nanosecond offset from a base
 //        time.Now(); the values are base.Add(off) and carry monotonic clock readings (the production
 //        path: Sub/Before then use the monotonic readings).
@@ -67,10 +69,29 @@ func c21Run(in []string) []string {
 	th := time.Duration(pi(in[2]))
 	var ts [7]time.Time
 	mono := op == "SM" || op == "PM"
+	mixed := op == "SX" || op == "PX"
 	if mono {
 		base := time.Now()
 		for i := 0; i < 7; i++ {
 			ts[i] = base.Add(time.Duration(pi(in[3+i])))
+		}
+	} else if mixed {
+		// production shape: Now carries a monotonic reading, stamps may be wall-only (e.g. restored
+		// from disk) or never set (time.Time{})
+		base := time.Now()
+		for i := 0; i < 7; i++ {
+			tok := in[3+i]
+			switch tok[0] {
+			case 'z':
+				ts[i] = time.Time{}
+				vu.Stat("mixed.zero")
+			case 'w':
+				ts[i] = base.Add(time.Duration(pi(tok[1:]))).Round(0) // Round(0) strips the monotonic reading
+				vu.Stat("mixed.wall")
+			default:
+				ts[i] = base.Add(time.Duration(pi(tok[1:])))
+				vu.Stat("mixed.mono")
+			}
 		}
 	} else {
 		for i := 0; i < 7; i++ {
@@ -87,7 +108,7 @@ func c21Run(in []string) []string {
 		ExternalSelfEventCreated:  ts[5],
 		ExternalSelfEventDetected: ts[6],
 	}
-	if op == "S" || op == "SM" {
+	if op == "S" || op == "SM" || op == "SX" {
 		w, err := doublesign.SyncedToEmit(s, th)
 		vu.Stat(op + ".err=" + c21ErrCode(err))
 		if w == math.MaxInt64 {
@@ -302,6 +323,25 @@ func init() {
 			for i := 0; i < n; i++ {
 				th := c21Threshold(r)
 				k := r.Intn(10)
+				if k < 2 && r.Intn(2) == 0 { // mixed: monotonic Now against wall-only / zero / monotonic stamps
+					t := []string{"SX", strconv.FormatInt(c21Peers(r), 10), strconv.FormatInt(th, 10)}
+					if k == 1 {
+						t[0] = "PX"
+					}
+					t = append(t, "m"+strconv.FormatInt(c21MonoOff(r, th), 10))
+					for j := 1; j < 7; j++ {
+						switch r.Intn(6) {
+						case 0:
+							t = append(t, "z")
+						case 1, 2:
+							t = append(t, "w"+strconv.FormatInt(c21MonoOff(r, th), 10))
+						default:
+							t = append(t, "m"+strconv.FormatInt(c21MonoOff(r, th), 10))
+						}
+					}
+					emit(t...)
+					continue
+				}
 				if k < 2 { // monotonic path
 					t := []string{"SM", strconv.FormatInt(c21Peers(r), 10), strconv.FormatInt(th, 10)}
 					if k == 1 {
